@@ -14,6 +14,7 @@ RULE = ('Hypothesis draws histories (lists of up to 10 / 30 operations, interpre
         'every applied step; a bounded systematic enumeration of all sequences of length <= 3 over a 9-operation alphabet on one key is added. Non-trivial: a history with a '
         're-certification or revocation followed by a further step, or an export/import or copy in the middle; distinct by operation-name sequence.')
 RULE += ' Key revocations are also issued by a designated revoker of the key (reported) and by a key that was never authorised (not reported).'
+RULE += ' Worker fresh: keys made by PGPKey.new() with creation times carrying microseconds; expiry and creation of the live key, its twin and a signature must equal those of their re-imported export.'
 ASSUMPTIONS = ['on a creation-time tie between self-signatures either tied value is accepted', 'identities that carry a revocation are not checked for effective values',
                'refpgp.grammar/sig decide validity of the exported certificate']
 
@@ -61,8 +62,45 @@ def systematic(arg):
     return rec
 
 
+def fresh(arg):
+    """keys made by PGPKey.new() (their creation time is a datetime that may carry a sub-second part, unlike a parsed key's): what the live
+    object says about the expiry of the key and of a signature must be what its own export says after import -- the packets hold whole seconds"""
+    import datetime
+    import pgpy
+    from pgpy.constants import PubKeyAlgorithm, EllipticCurveOID, KeyFlags, HashAlgorithm
+    seed = arg
+    rec = harness.Rec()
+    utc = datetime.timezone.utc
+    for us in (0, 1, 500000, 999999, None):
+        for form in ('datetime', 'timedelta'):
+            case = {'kind': 'fresh', 'microsecond': us, 'form': form}
+            rec.case(('fresh', us, form), True, ['fresh-key', 'created-microsecond/%s' % us, 'key-expiration/' + form], {'created_microsecond': us, 'key_expiration_given_as': form})
+            try:
+                kw = {} if us is None else {'created': datetime.datetime(2020, 1, 1 + seed % 20, 0, 0, 0, us, tzinfo=utc)}
+                key = pgpy.PGPKey.new(PubKeyAlgorithm.EdDSA, EllipticCurveOID.Ed25519, **kw)
+                when = datetime.datetime(2031, 1, 1, tzinfo=utc)
+                kexp = when if form == 'datetime' else datetime.timedelta(days=4000)
+                key.add_uid(pgpy.PGPUID.new('Fresh Key'), usage={KeyFlags.Certify, KeyFlags.Sign}, hashes=[HashAlgorithm.SHA256], key_expiration=kexp)
+                sig = key.sign(b'fresh', expires=when if form == 'datetime' else datetime.timedelta(days=30))
+                live = (key.expires_at, key.pubkey.expires_at, sig.expires_at, key.created, sig.created)
+                back = pgpy.PGPKey.from_blob(bytes(key.pubkey))[0]
+                sback = pgpy.PGPSignature.from_blob(bytes(sig))
+                after = (back.expires_at, back.expires_at, sback.expires_at, back.created, sback.created)
+            except Exception as e:   # noqa
+                rec.finding('fresh', 'exception/' + harness.exc_key(e), case, repr(e))
+                continue
+            names = ('key expiry', 'twin expiry', 'signature expiry', 'key creation', 'signature creation')
+            diff = [n for n, a, b in zip(names, live, after) if a != b]
+            if diff:
+                rec.finding('fresh', 'live-object-differs-from-its-export/' + '+'.join(d.split()[-1] for d in diff), case,
+                            '; '.join('%s: %s live, %s after import' % (n, a, b) for n, a, b in zip(names, live, after) if a != b))
+            if form == 'datetime' and after[0] != when:
+                rec.finding('fresh', 'expiry-is-not-the-instant-asked-for', case, '%s asked, %s exported' % (when, after[0]))
+    return rec
+
+
 def run(tier, seed):
-    tasks = [('systematic', (p, 6, 3 if tier == 'quick' else 4)) for p in range(6)]
+    tasks = [('systematic', (p, 6, 3 if tier == 'quick' else 4)) for p in range(6)] + [('fresh', seed)]
     n, maxops, bsec = (100, 12, 100) if tier == 'quick' else (800, 30, 1200)
     for i in range(16 if tier == 'quick' else 26):
         tasks.append(('shard', (seed, i, n, maxops, bsec)))
@@ -74,6 +112,8 @@ def dispatch(task):
 
 
 def replay(case):
+    if case.get('kind') == 'fresh':
+        return [(f['clause'], f['cause'], f['detail']) for f in fresh(0).findings]
     return certmachine.run_ops(case, certmachine.inv_c15)[0]
 
 
